@@ -8,7 +8,7 @@ use crate::oracle::Pt;
 use engeom::common::kd_tree::{KdTree, KdTreeSearch, PartialKdTree};
 use engeom::common::poisson_disk::sample_poisson_disk;
 use engeom::common::AngleDir;
-use engeom::geom2::hull::{ball_pivot_fill_gaps_2d, ball_pivot_with_centers_2d, convex_hull_2d, farthest_pair_indices, point_order_direction, BallPivotEnd, BallPivotStart};
+use engeom::geom2::hull::{ball_pivot_2d, ball_pivot_fill_gaps_2d, ball_pivot_with_centers_2d, convex_hull_2d, farthest_pair_indices, point_order_direction, BallPivotEnd, BallPivotStart};
 use engeom::{Curve2, Point2};
 use parry2d_f64::shape::ConvexPolygon;
 use proptest::prelude::*;
@@ -624,6 +624,42 @@ fn pivot(raw: &[P2], rfac: f64, cw: bool, fill: &Option<f64>) -> Verdict {
                 let near_tie = near_tie || (s >= 2 && ((pts[indices[s]] - centers[s - 2]).norm() - radius).abs() <= 1e-5 * radius);
                 let which = if near_tie { "near_cocircular_tie" } else if s >= 1 && j == indices[s - 1] { "previous_point" } else { "other_point" };
                 return Verdict::fail(format!("C15/ball_pivot/point_inside_ball/{which}"), format!("step {s} ({} -> {}): input point {j} is {:e} inside the reported ball of radius {radius:e} (it is {})", indices[s], indices[s + 1], radius - d, if which == "previous_point" { "the point visited just before" } else if which == "near_cocircular_tie" { "a point that was within 1e-5 r of the previous ball: a near co-circular triple" } else { "another point" }));
+            }
+        }
+    }
+    // the other entry points describe the same walk: the index-only wrapper, the same start given explicitly as
+    // (index, direction), and a walk told to end on a point the full walk visits
+    {
+        match guarded(|| ball_pivot_2d(&pts, BallPivotStart::StartOnConvex, BallPivotEnd::EndOnRepeat, dir, radius)) {
+            Ok(Ok(only)) => ensure!(only == indices, "C15/ball_pivot_2d/differs", "ball_pivot_2d returns {:?}, ball_pivot_with_centers_2d {:?}", only, indices),
+            Ok(Err(e)) => return Verdict::fail("C15/ball_pivot_2d/differs", format!("ball_pivot_2d fails ({e}) where ball_pivot_with_centers_2d succeeds")),
+            Err(m) => return Verdict::fail("C15/ball_pivot_2d/panic", m),
+        }
+        let hull = convex_hull_2d(&pts);
+        if hull.len() >= 2 && hull[0] == indices[0] {
+            let e = pts[hull[1]] - pts[hull[0]];
+            let v = engeom::Vector2::new(e.y, -e.x); // a quarter turn clockwise: away from a counter-clockwise hull
+            match guarded(|| ball_pivot_with_centers_2d(&pts, BallPivotStart::StartOnIndexDir(hull[0], v), BallPivotEnd::EndOnRepeat, dir, radius)) {
+                Ok(Ok((i2, c2))) => {
+                    ensure!(i2 == indices, "C15/ball_pivot/start_on_index_dir/differs", "started explicitly at hull point {} heading outwards the walk is {:?}, started on the hull it is {:?}", hull[0], i2, indices);
+                    ensure!(c2.len() == centers.len() && c2.iter().zip(centers.iter()).all(|(a, b)| (a - b).norm() <= 1e-9 * (1.0 + radius)), "C15/ball_pivot/start_on_index_dir/centres", "ball centres differ between the two ways of giving the same start");
+                }
+                Ok(Err(e)) => return Verdict::fail("C15/ball_pivot/start_on_index_dir/differs", format!("explicit start fails: {e}")),
+                Err(m) => return Verdict::fail("C15/ball_pivot/start_on_index_dir/panic", m),
+            }
+            cx.label("pivot_explicit_start");
+        }
+        if indices.len() >= 4 {
+            let k = indices.len() / 2;
+            let target = indices[k];
+            let first = indices.iter().position(|i| *i == target).unwrap();
+            if first >= 1 {
+                match guarded(|| ball_pivot_2d(&pts, BallPivotStart::StartOnConvex, BallPivotEnd::EndOnIndex(target), dir, radius)) {
+                    Ok(Ok(part)) => ensure!(part[..] == indices[..=first], "C15/ball_pivot/end_on_index/differs", "told to end on point {target} the walk is {:?}; the full walk {:?} first reaches it after {first} steps", part, indices),
+                    Ok(Err(e)) => return Verdict::fail("C15/ball_pivot/end_on_index/differs", format!("the walk told to end on point {target}, which the full walk {:?} visits, fails: {e}", indices)),
+                    Err(m) => return Verdict::fail("C15/ball_pivot/end_on_index/panic", m),
+                }
+                cx.label("pivot_end_on_index");
             }
         }
     }
